@@ -5,6 +5,7 @@
 
 """Linear algebra functions."""
 
+import inspect
 import numpy as np
 from functools import lru_cache
 from typing import Union, Optional, Iterable
@@ -64,6 +65,40 @@ _REDUCERS = frozenset(
         np.linalg.norm,
     }
 )
+
+
+# functions that move axes: the result is a field when the two leading axes stay where they are
+_AXIS_MOVERS = frozenset({np.swapaxes, np.moveaxis, np.transpose, np.rollaxis})
+
+
+def _KeepsLeadingAxes(func, args: tuple, kwargs: dict, ndim: int) -> bool:
+    """True when `func(array, *args[1:], **kwargs)` leaves the two leading axes of an `ndim` array in place."""
+    probe = np.empty(tuple(range(2, 2 + ndim)), dtype=bool)  # all extents differ
+    return func(probe, *args[1:], **kwargs).shape[:2] == (2, 3)
+
+
+def _FeNdim(operands) -> int:
+    """ndim of the first FeArray among (possibly nested) operands."""
+    stack = list(operands)[::-1]
+    while stack:
+        operand = stack.pop()
+        if isinstance(operand, FeArray):
+            return operand.ndim
+        elif isinstance(operand, (list, tuple)):
+            stack.extend(operand[::-1])
+    return 0
+
+
+@lru_cache(maxsize=None)
+def _AxisParameter(func):
+    """(position, default) of the `axis` parameter of a numpy function, None if it has none."""
+    try:
+        parameters = inspect.signature(func).parameters
+    except (TypeError, ValueError):
+        return None
+    if "axis" not in parameters:
+        return None
+    return list(parameters).index("axis"), parameters["axis"].default
 
 
 # position of `axis` among the positional arguments when it is not the second one
@@ -277,14 +312,28 @@ class FeArray(np.ndarray):
             )
             if not _KeepsFeAxes(axes, np.ndim(args[0])):
                 feShape = ()
-        elif func in _REDUCERS or func in _AXIS_POSITION or "axis" in kwargs:
-            # where the axis is among the positional arguments: np.linalg.norm(x, ord, axis),
-            # np.quantile(a, q, axis), ... ; a function working along an element or Gauss-point
-            # axis (take, sort, cumsum, ...) does not return a field either
-            pos = _AXIS_POSITION.get(func, 1)
-            axis = kwargs.get("axis", args[pos] if len(args) > pos else None)
-            if not _KeepsFeAxes(axis, np.ndim(args[0])):
+        elif func in _AXIS_MOVERS:
+            if not _KeepsLeadingAxes(func, args, kwargs, _FeNdim(args)):
                 feShape = ()
+        else:
+            # where the axis is among the positional arguments: np.linalg.norm(x, ord, axis),
+            # np.quantile(a, q, axis), np.cumsum(a, axis), ... ; a function working along an
+            # element or Gauss-point axis (take, sort, cumsum, ...) does not return a field either
+            parameter = _AxisParameter(func)
+            if func in _AXIS_POSITION or parameter is None:
+                pos, default = _AXIS_POSITION.get(func, 1), None
+                known = func in _REDUCERS or func in _AXIS_POSITION or "axis" in kwargs
+            else:
+                (pos, default), known = parameter, True
+            if known:
+                axis = kwargs.get("axis", args[pos] if len(args) > pos else default)
+                if axis is None:
+                    # all the axes at once: a reduction consumes them, anything else
+                    # (cumsum, flip, ...) is typed by the shape that comes out
+                    if func in _REDUCERS:
+                        feShape = ()
+                elif not _KeepsFeAxes(axis, _FeNdim(args) or np.ndim(args[0])):
+                    feShape = ()
         args = tuple(_Base(arg) for arg in args)
         kwargs = {key: _Base(value) for key, value in kwargs.items()}
         res = super().__array_function__(func, types, args, kwargs)
